@@ -328,11 +328,13 @@ def o_abs_floor(op, mesh, line, out):
         return
     if max(abs(x) for m in mesh.metric for x in m) > 1e100:
         return
+    if op == 'roundoff':
+        rad = radii_ref(mesh)
+        if any(r * r * 1e19 <= 4e-12 for r in rad):
+            return      # zero-length edge: the implementation's RAS ("element with zero edge length") is legitimate
     if st != 'ok':
         out.append('%s: status %s on a finite field' % (op, st))
         return
-    if op == 'roundoff':
-        rad = radii_ref(mesh)
     for n, (a, b) in enumerate(zip(mesh.metric, field)):
         if op == 'abs_hessian' and not mesh.owned[n]:
             if [hx(x) for x in a] != [hx(x) for x in b]:
